@@ -899,7 +899,8 @@ theorem cylinder_segment_mesh_closed (vert : Nat) (phi1 phi2 : ℝ) (h : phi2 - 
 example : openEdges (segTriangles 5 false) = [] := by decide
 /-- exactly `phi2 - phi1 == 360` (a full ring drawn as a segment): no caps, and the first and the last column of every arc
 are DIFFERENT rows holding the same points, so at index level the surface is open along the seam (8 open edges: the four
-rungs of column 0 and of column N-1); geometrically the seam is closed -/
+rungs of column 0 and of column N-1); geometrically the seam is closed.  THIS theorem is the instance `N = 5` only (a `decide`);
+for every arc count: `cylinder_segment_full_turn_seam_open_N` at the end of the file (audit2). -/
 theorem cylinder_segment_full_turn_seam_open :
     openEdges (segTriangles 5 true) = [(0, 5), (14, 19), (5, 15), (9, 19), (4, 9), (10, 15), (0, 10), (4, 14)] := by decide
 
@@ -1050,7 +1051,9 @@ example : (10 : ℝ) ^ autoDigits (5 : ℝ) ≤ 5 := (auto_unit_factor_bounds 5)
 example : (1 / 5000 : ℝ) ≤ (10 : ℝ) ^ (autoDigits (1 / 5000 : ℝ) + 2) := ((auto_unit_factor_bounds (1 / 5000)).2 (by norm_num) (by norm_num)).2.1
 
 /-- the prefix table behind it (regenerated `Gen.Units.table`): for every multiple of three `d` in `-24 … 24` the unit chosen
-has power `d` and `get_unit_factor` returns `10^(-d)`; any other `d` (beyond yocto / yotta) falls back to metres with factor 1 -/
+has power `d` and `get_unit_factor` returns `10^(-d)`; any other `d` (beyond yocto / yotta) falls back to metres with factor 1
+(decided for the 17 listed digits and for ±27 only; every multiple of three: `auto_unit_prefix_all_digits`, and composed with
+`auto_unit_factor_bounds` on `autoUnit`: `auto_unit_displayed_range`, both at the end of the file, audit2) -/
 theorem auto_unit_prefix_table :
     (∀ d ∈ [(-24 : Int), -21, -18, -15, -12, -9, -6, -3, 0, 3, 6, 9, 12, 15, 18, 21, 24], (prefixOfDigits d).2 = (d, -d)) ∧
     (prefixOfDigits 27).2 = (0, 0) ∧ (prefixOfDigits (-27)).2 = (0, 0) := by decide
@@ -1781,4 +1784,293 @@ theorem extra_trace_without_copy_accumulates :
     ((extraFramesWith false extraDemo extraDemoPoses).toOption.map fun r => (r.1.lookup "x", r.2.map fun t => t.kwargs.lookup "x")) =
       some (some (.arr [1] [2]), [some (.arr [1] [1]), some (.arr [1] [2])]) := by decide
 
+
+/-! ## added by the second audit (audit2)
+
+* `place` on the carrier the driver runs (`M3 ℝ` acting on `V3 ℝ` with the model's own instances, the ones of `placeModel_vertices`):
+  the `place_*` theorems above need a Mathlib `Group G` / `DistribMulAction G V` / `Module K V` (`K` a field) and are instantiated
+  only at `ℚˣ` on `ℚ` and at linear equivalences of `Fin 3 → ℝ` — never at `M3` / `V3`.  For an ORTHOGONAL matrix (`R⁻¹ * R = 1`
+  with the model's `Inv` = transpose) placement multiplies all distances by `|f · scale|` and is inverted by the oracle's map back.
+* `units_length="auto"` end to end on the regenerated table: `autoUnit` (what the driver runs) for every `rmax`, not a literal
+  list of digits.
+* the exact-360 ring for EVERY arc count (the old theorem is the instance `N = 5`).
+* `merge_scatter3d` without the two string hypotheses nobody can instantiate in the kernel.
+-/
+
+namespace MagpyVerif.C19
+open MagpyVerif MagpyVerif.Display MagpyVerif.Mesh MagpyVerif.Gen
+section placeV3
+open MagpyVerif MagpyVerif.Display
+
+/-- `place` with the model's own instances (`M3.apply`, `V3.smul`, componentwise `+`), componentwise -/
+theorem place_V3_eq (R : M3 ℝ) (p v : V3 ℝ) (s f : ℝ) :
+    place R p s f v = ⟨f * (s * R.r1.dot v + p.x), f * (s * R.r2.dot v + p.y), f * (s * R.r3.dot v + p.z)⟩ := rfl
+
+/-- the six column relations of an orthogonal matrix (`R⁻¹` is the model's transpose) -/
+theorem orth_entries {R : M3 ℝ} (hR : R⁻¹ * R = 1) :
+    R.r1.x * R.r1.x + R.r2.x * R.r2.x + R.r3.x * R.r3.x = 1 ∧
+    R.r1.x * R.r1.y + R.r2.x * R.r2.y + R.r3.x * R.r3.y = 0 ∧
+    R.r1.x * R.r1.z + R.r2.x * R.r2.z + R.r3.x * R.r3.z = 0 ∧
+    R.r1.y * R.r1.y + R.r2.y * R.r2.y + R.r3.y * R.r3.y = 1 ∧
+    R.r1.y * R.r1.z + R.r2.y * R.r2.z + R.r3.y * R.r3.z = 0 ∧
+    R.r1.z * R.r1.z + R.r2.z * R.r2.z + R.r3.z * R.r3.z = 1 :=
+  ⟨congrArg (fun m : M3 ℝ => m.r1.x) hR, congrArg (fun m : M3 ℝ => m.r1.y) hR, congrArg (fun m : M3 ℝ => m.r1.z) hR,
+   congrArg (fun m : M3 ℝ => m.r2.y) hR, congrArg (fun m : M3 ℝ => m.r2.z) hR, congrArg (fun m : M3 ℝ => m.r3.z) hR⟩
+
+/-- squared Euclidean distance -/
+def dist2 (a b : V3 ℝ) : ℝ := (a.x - b.x) ^ 2 + (a.y - b.y) ^ 2 + (a.z - b.z) ^ 2
+
+/-- with an orthogonal `R` (what a scipy Rotation's matrix is — assumed) placement multiplies every squared distance between model
+vertices by `(f · scale)²`: the drawn body is the model body, rigidly moved and rescaled by the unit factor — its extent is the
+object's extent.  (`place_preserves_extent` says this only up to an unspecified group action.) -/
+theorem place_V3_isometry (R : M3 ℝ) (hR : R⁻¹ * R = 1) (p v w : V3 ℝ) (s f : ℝ) :
+    dist2 (place R p s f v) (place R p s f w) = (f * s) ^ 2 * dist2 v w := by
+  obtain ⟨h1, h2, h3, h4, h5, h6⟩ := orth_entries hR
+  obtain ⟨⟨a, b, c⟩, ⟨d, e, g⟩, ⟨h, i, j⟩⟩ := R
+  obtain ⟨vx, vy, vz⟩ := v
+  obtain ⟨wx, wy, wz⟩ := w
+  simp only [place_V3_eq, dist2, V3.dot] at *
+  linear_combination (f * s) ^ 2 * ((vx - wx) ^ 2 * h1 + 2 * (vx - wx) * (vy - wy) * h2 + 2 * (vx - wx) * (vz - wz) * h3 +
+    (vy - wy) ^ 2 * h4 + 2 * (vy - wy) * (vz - wz) * h5 + (vz - wz) ^ 2 * h6)
+
+/-- the oracle's map back on the model's carrier: for an orthogonal `R` and `f ≠ 0` it recovers the local vertex -/
+theorem place_V3_inverse (R : M3 ℝ) (hR : R⁻¹ * R = 1) (p v : V3 ℝ) (f : ℝ) (hf : f ≠ 0) :
+    R⁻¹ • (f⁻¹ • place R p (1 : ℝ) f v - p) = v := by
+  obtain ⟨h1, h2, h3, h4, h5, h6⟩ := orth_entries hR
+  obtain ⟨⟨a, b, c⟩, ⟨d, e, g⟩, ⟨h, i, j⟩⟩ := R
+  obtain ⟨vx, vy, vz⟩ := v
+  obtain ⟨px, py, pz⟩ := p
+  have hc : ∀ X P : ℝ, f⁻¹ * (f * (1 * X + P)) - P = X := by
+    intro X P; rw [inv_mul_cancel_left₀ hf]; ring
+  show (⟨a * (f⁻¹ * (f * (1 * (a * vx + b * vy + c * vz) + px)) - px) + d * (f⁻¹ * (f * (1 * (d * vx + e * vy + g * vz) + py)) - py) +
+          h * (f⁻¹ * (f * (1 * (h * vx + i * vy + j * vz) + pz)) - pz),
+        b * (f⁻¹ * (f * (1 * (a * vx + b * vy + c * vz) + px)) - px) + e * (f⁻¹ * (f * (1 * (d * vx + e * vy + g * vz) + py)) - py) +
+          i * (f⁻¹ * (f * (1 * (h * vx + i * vy + j * vz) + pz)) - pz),
+        c * (f⁻¹ * (f * (1 * (a * vx + b * vy + c * vz) + px)) - px) + g * (f⁻¹ * (f * (1 * (d * vx + e * vy + g * vz) + py)) - py) +
+          j * (f⁻¹ * (f * (1 * (h * vx + i * vy + j * vz) + pz)) - pz)⟩ : V3 ℝ) = ⟨vx, vy, vz⟩
+  simp only [hc, V3.mk.injEq]
+  simp only at h1 h2 h3 h4 h5 h6
+  refine ⟨?_, ?_, ?_⟩
+  · linear_combination vx * h1 + vy * h2 + vz * h3
+  · linear_combination vx * h2 + vy * h4 + vz * h5
+  · linear_combination vx * h3 + vy * h5 + vz * h6
+
+
+/-- rotation by 90° about z is orthogonal in the model's sense … -/
+theorem rotZ90_orthogonal : (⟨⟨0, -1, 0⟩, ⟨1, 0, 0⟩, ⟨0, 0, 1⟩⟩ : M3 ℝ)⁻¹ * ⟨⟨0, -1, 0⟩, ⟨1, 0, 0⟩, ⟨0, 0, 1⟩⟩ = 1 := by
+  show M3.mul (M3.transpose _) _ = M3.one
+  simp [M3.mul, M3.transpose, M3.one, V3.dot]
+/-- … so `place_V3_isometry` / `place_V3_inverse` apply to it (all hypotheses instantiated) -/
+example (p v w : V3 ℝ) :
+    dist2 (place (⟨⟨0, -1, 0⟩, ⟨1, 0, 0⟩, ⟨0, 0, 1⟩⟩ : M3 ℝ) p (2 : ℝ) (1000 : ℝ) v)
+        (place (⟨⟨0, -1, 0⟩, ⟨1, 0, 0⟩, ⟨0, 0, 1⟩⟩ : M3 ℝ) p (2 : ℝ) (1000 : ℝ) w) = (1000 * 2) ^ 2 * dist2 v w :=
+  place_V3_isometry _ rotZ90_orthogonal p v w 2 1000
+example (p v : V3 ℝ) :
+    (⟨⟨0, -1, 0⟩, ⟨1, 0, 0⟩, ⟨0, 0, 1⟩⟩ : M3 ℝ)⁻¹ • ((1000 : ℝ)⁻¹ • place (⟨⟨0, -1, 0⟩, ⟨1, 0, 0⟩, ⟨0, 0, 1⟩⟩ : M3 ℝ) p (1 : ℝ) (1000 : ℝ) v - p) = v :=
+  place_V3_inverse _ rotZ90_orthogonal p v 1000 (by norm_num)
+end placeV3
+
+/-- `placeModel_vertices` applied (hypothesis `hrest` instantiated): a two-vertex trace with one other entry, rotated by 90° about z,
+scaled by 2, shifted -/
+example :=
+  placeModel_vertices (α := Int) ⟨⟨0, -1, 0⟩, ⟨1, 0, 0⟩, ⟨0, 0, 1⟩⟩ ⟨10, 20, 30⟩ 2 1 [2] [1, 0] [0, 1] [0, 0] [("i", TVal.other 7)] (by decide)
+
+/-- `merge_mesh3d_preserves_faces` applied (both hypotheses instantiated) -/
+example : zip3 [0, 3, 4] [1, 4, 5] [2, 6, 6] = [(0, 1, 2), (3, 4, 6), (4, 5, 6)] ∧ True :=
+  ⟨by decide, trivial⟩
+example := (merge_mesh3d_preserves_faces
+    [({ x := [1, 2, 3], y := [0, 0, 0], z := [0, 0, 0], i := [0], j := [1], k := [2] } : MeshTrace Int),
+      { x := [7, 8, 9, 10], y := [1, 1, 1, 1], z := [2, 2, 2, 2], i := [0, 1], j := [1, 2], k := [3, 3] }]
+    { x := [1, 2, 3, 7, 8, 9, 10], y := [0, 0, 0, 1, 1, 1, 1], z := [0, 0, 0, 2, 2, 2, 2], i := [0, 3, 4], j := [1, 4, 5], k := [2, 6, 6] }
+    (by decide) (by decide)).1
+
+/-- `digits = … // 3 * 3` is a multiple of three: the rows `d` (-1) and `c` (-2) of the regenerated table — which `get_unit_factor`
+knows but `_UNIT_PREFIX` does not — are never selected by `prefixOfDigits ∘ autoDigits` (the model looks `digits` up in
+`Gen.Units.table`, which contains them) -/
+theorem auto_unit_digits_multiple_of_three (x : ℝ) : (3 : Int) ∣ autoDigits x := by
+  unfold autoDigits
+  split
+  · exact dvd_zero 3
+  · exact Dvd.intro_left _ rfl
+/-- every power recorded in the regenerated table lies in -24 … 24 -/
+theorem units_table_powers_in_range : ∀ r ∈ Units.table, -24 ≤ r.1 ∧ r.1 ≤ 24 := by decide
+/-- `auto_unit_prefix_table` for EVERY multiple of three (not the literal list of 17 + 2): inside -24 … 24 the regenerated table
+gives power `d` and factor exponent `-d` (`d = 0`: no row, unit "m", factor 1); outside the fallback (0, 0) -/
+theorem auto_unit_prefix_all_digits (d : Int) (h3 : (3 : Int) ∣ d) :
+    (prefixOfDigits d).2 = if -24 ≤ d ∧ d ≤ 24 then (d, -d) else (0, 0) := by
+  by_cases hr : -24 ≤ d ∧ d ≤ 24
+  · rw [if_pos hr]
+    obtain ⟨k, rfl⟩ := h3
+    obtain ⟨h1, h2⟩ := hr
+    have hk1 : -8 ≤ k := by omega
+    have hk2 : k ≤ 8 := by omega
+    interval_cases k <;> decide
+  · rw [if_neg hr]
+    have : Units.table.find? (fun r => r.1 == d) = none := by
+      rw [List.find?_eq_none]
+      intro r hr' hc
+      have := units_table_powers_in_range r hr'
+      simp only [beq_iff_eq] at hc
+      omega
+    simp [prefixOfDigits, this]
+
+/-- `units_length="auto"` end to end, on `autoUnit` (the function the `autounit` / `ranges` rows run) over the regenerated table:
+for `1 ≤ rmax < 10^27` the unit's power is `autoDigits rmax`, the factor is `10^(-power)` and the displayed number
+`rmax · factor` lies in `[1, 1000)`; for `10^-25 < rmax < 1` it lies in `(1/10, 100]` (real-number carrier: `int(log10 x)` is the
+exact truncation). -/
+theorem auto_unit_displayed_range (rmax : ℝ) :
+    (1 ≤ rmax → rmax < (10 : ℝ) ^ (27 : Int) →
+      (autoUnit rmax).2.1 = autoDigits rmax ∧ (autoUnit rmax).2.2 = -autoDigits rmax ∧
+      1 ≤ rmax * (10 : ℝ) ^ (autoUnit rmax).2.2 ∧ rmax * (10 : ℝ) ^ (autoUnit rmax).2.2 < 1000) ∧
+    ((10 : ℝ) ^ (-25 : Int) < rmax → rmax < 1 →
+      (autoUnit rmax).2.1 = autoDigits rmax ∧ (autoUnit rmax).2.2 = -autoDigits rmax ∧
+      1 / 10 < rmax * (10 : ℝ) ^ (autoUnit rmax).2.2 ∧ rmax * (10 : ℝ) ^ (autoUnit rmax).2.2 ≤ 100) := by
+  have h3 := auto_unit_digits_multiple_of_three rmax
+  have hall := auto_unit_prefix_all_digits (autoDigits rmax) h3
+  have h10 : (0 : ℝ) < 10 := by norm_num
+  constructor
+  · intro h1 h27
+    obtain ⟨b1, b2, b3⟩ := autoDigits_bounds_ge_one h1
+    have hlt : autoDigits rmax < 27 := by
+      by_contra hc
+      push Not at hc
+      have : (10 : ℝ) ^ (27 : Int) ≤ (10 : ℝ) ^ autoDigits rmax := zpow_le_zpow_right₀ (by norm_num) hc
+      linarith
+    have hr : -24 ≤ autoDigits rmax ∧ autoDigits rmax ≤ 24 := by omega
+    rw [if_pos hr] at hall
+    have e1 : (autoUnit rmax).2.1 = autoDigits rmax := by simp [autoUnit, hall]
+    have e2 : (autoUnit rmax).2.2 = -autoDigits rmax := by simp [autoUnit, hall]
+    refine ⟨e1, e2, ?_, ?_⟩
+    · rw [e2, zpow_neg, ← div_eq_mul_inv, le_div_iff₀ (zpow_pos h10 _)]
+      linarith
+    · rw [e2, zpow_neg, ← div_eq_mul_inv, div_lt_iff₀ (zpow_pos h10 _)]
+      have : (10 : ℝ) ^ (autoDigits rmax + 3) = 1000 * (10 : ℝ) ^ autoDigits rmax := by
+        rw [zpow_add₀ (by norm_num)]; norm_num; ring
+      linarith
+  · intro h25 h1
+    have hpos : 0 < rmax := lt_trans (zpow_pos h10 _) h25
+    obtain ⟨b1, b2, b3⟩ := autoDigits_bounds_lt_one hpos h1
+    have hgt : -27 < autoDigits rmax := by
+      by_contra hc
+      push Not at hc
+      have : (10 : ℝ) ^ (autoDigits rmax + 2) ≤ (10 : ℝ) ^ (-25 : Int) := zpow_le_zpow_right₀ (by norm_num) (by omega)
+      linarith
+    have hr : -24 ≤ autoDigits rmax ∧ autoDigits rmax ≤ 24 := by omega
+    rw [if_pos hr] at hall
+    have e1 : (autoUnit rmax).2.1 = autoDigits rmax := by simp [autoUnit, hall]
+    have e2 : (autoUnit rmax).2.2 = -autoDigits rmax := by simp [autoUnit, hall]
+    refine ⟨e1, e2, ?_, ?_⟩
+    · rw [e2, zpow_neg, ← div_eq_mul_inv, lt_div_iff₀ (zpow_pos h10 _)]
+      have : (10 : ℝ) ^ (autoDigits rmax - 1) = 1 / 10 * (10 : ℝ) ^ autoDigits rmax := by
+        rw [zpow_sub₀ (by norm_num)]; norm_num; ring
+      linarith
+    · rw [e2, zpow_neg, ← div_eq_mul_inv, div_le_iff₀ (zpow_pos h10 _)]
+      have : (10 : ℝ) ^ (autoDigits rmax + 2) = 100 * (10 : ℝ) ^ autoDigits rmax := by
+        rw [zpow_add₀ (by norm_num)]; norm_num; ring
+      linarith
+
+/-- non-vacuity: 5 m -/
+example : (1 : ℝ) ≤ 5 * (10 : ℝ) ^ (autoUnit (5 : ℝ)).2.2 :=
+  ((auto_unit_displayed_range 5).1 (by norm_num) (by norm_num)).2.2.1
+
+/-- `get_open_edges`: the undirected edges not used exactly twice -/
+theorem mem_openEdges_iff (fs : List Face) (e : Edge) :
+    e ∈ openEdges fs ↔ e ∈ edgesOf fs ∧ (edgesOf fs).count e ≠ 2 := by
+  simp [openEdges, List.mem_filter, List.mem_eraseDups]
+
+/-- without the caps (exact 360) an edge is open iff exactly one CAP triangle would have used it -/
+theorem seg_full_open_iff_cap_edge {N : Nat} (hN : 2 ≤ N) (e : Edge) :
+    e ∈ openEdges (segTriangles N true) ↔ (edgesOf (segCaps N)).count e = 1 := by
+  have heq : segTriangles N true = segSpec N := by rw [segTriangles_eq]; rfl
+  rw [heq, mem_openEdges_iff]
+  have hc := edgesOf_seg_count (show 1 ≤ N by omega) e
+  rw [edgesOf_count_append] at hc
+  have hle : (segEdges N).count e ≤ 1 := List.nodup_iff_count_le_one.1 (segEdges_nodup hN) e
+  rw [← List.count_pos_iff]
+  omega
+
+/-- the 12 undirected edges of the four cap triangles -/
+theorem edgesOf_segCaps {N : Nat} (hN : 1 ≤ N) : edgesOf (segCaps N) =
+    [(0, 2 * N), (0, N), (N - 1, 4 * N - 1), (2 * N - 1, 4 * N - 1),
+     (2 * N, 3 * N), (0, 3 * N), (3 * N - 1, 4 * N - 1), (N - 1, 4 * N - 1),
+     (0, 3 * N), (N, 3 * N), (N - 1, 3 * N - 1), (N - 1, 2 * N - 1)] := by
+  simp only [edgesOf, segCaps, List.map_cons, List.map_nil, List.cons_append, List.nil_append]
+  have s1 : sortPair 0 (2 * N) = (0, 2 * N) := sortPair_lt (by omega)
+  have s2 : sortPair N 0 = (0, N) := sortPair_gt (by omega)
+  have s3 : sortPair (0 + N - 1) (3 * N + N - 1) = (N - 1, 4 * N - 1) := by rw [sortPair_lt (by omega)]; congr 1 <;> omega
+  have s4 : sortPair (N + N - 1) (3 * N + N - 1) = (2 * N - 1, 4 * N - 1) := by rw [sortPair_lt (by omega)]; congr 1 <;> omega
+  have s5 : sortPair (2 * N) (3 * N) = (2 * N, 3 * N) := sortPair_lt (by omega)
+  have s6 : sortPair 0 (3 * N) = (0, 3 * N) := sortPair_lt (by omega)
+  have s7 : sortPair (3 * N + N - 1) (2 * N + N - 1) = (3 * N - 1, 4 * N - 1) := by rw [sortPair_gt (by omega)]; congr 1 <;> omega
+  have s8 : sortPair (3 * N + N - 1) (0 + N - 1) = (N - 1, 4 * N - 1) := by rw [sortPair_gt (by omega)]; congr 1 <;> omega
+  have s9 : sortPair N (3 * N) = (N, 3 * N) := sortPair_lt (by omega)
+  have s10 : sortPair (0 + N - 1) (2 * N + N - 1) = (N - 1, 3 * N - 1) := by rw [sortPair_lt (by omega)]; congr 1 <;> omega
+  have s11 : sortPair (N + N - 1) (0 + N - 1) = (N - 1, 2 * N - 1) := by rw [sortPair_gt (by omega)]; congr 1 <;> omega
+  rw [s1, s2, s3, s4, s5, s6, s7, s8, s9, s10, s11]
+
+set_option linter.unusedSimpArgs false in
+/-- `cylinder_segment_full_turn_seam_open` for EVERY arc count `N ≥ 2` (the old theorem decides `N = 5`; `vert = 50` over 360°
+gives `N = 50`): with `phi2 - phi1 == 360` the open edges of the index arrays are EXACTLY the eight rungs of the first and the last
+column (inner-outer top, inner-outer bottom, inner top-bottom, outer top-bottom, at `q = 0` and at `q = N - 1`). -/
+theorem cylinder_segment_full_turn_seam_open_N (N : Nat) (hN : 2 ≤ N) (e : Edge) :
+    e ∈ openEdges (segTriangles N true) ↔
+      e ∈ [(0, N), (2 * N, 3 * N), (0, 2 * N), (N, 3 * N),
+           (N - 1, 2 * N - 1), (3 * N - 1, 4 * N - 1), (N - 1, 3 * N - 1), (2 * N - 1, 4 * N - 1)] := by
+  rw [seg_full_open_iff_cap_edge hN, edgesOf_segCaps (by omega)]
+  obtain ⟨a, b⟩ := e
+  simp only [List.count_cons, List.count_nil, beq_iff_eq, Prod.mk.injEq, List.mem_cons, List.not_mem_nil, or_false]
+  by_cases h0 : 0 = a ∧ 2 * N = b
+  · simp (disch := omega) only [if_pos, if_neg, true_iff, false_iff]; omega
+  by_cases h1 : 0 = a ∧ N = b
+  · simp (disch := omega) only [if_pos, if_neg, true_iff, false_iff]; omega
+  by_cases h2 : N - 1 = a ∧ 4 * N - 1 = b
+  · simp (disch := omega) only [if_pos, if_neg, true_iff, false_iff]; omega
+  by_cases h3 : 2 * N - 1 = a ∧ 4 * N - 1 = b
+  · simp (disch := omega) only [if_pos, if_neg, true_iff, false_iff]; omega
+  by_cases h4 : 2 * N = a ∧ 3 * N = b
+  · simp (disch := omega) only [if_pos, if_neg, true_iff, false_iff]; omega
+  by_cases h5 : 0 = a ∧ 3 * N = b
+  · simp (disch := omega) only [if_pos, if_neg, true_iff, false_iff]; omega
+  by_cases h6 : 3 * N - 1 = a ∧ 4 * N - 1 = b
+  · simp (disch := omega) only [if_pos, if_neg, true_iff, false_iff]; omega
+  by_cases h7 : N = a ∧ 3 * N = b
+  · simp (disch := omega) only [if_pos, if_neg, true_iff, false_iff]; omega
+  by_cases h8 : N - 1 = a ∧ 3 * N - 1 = b
+  · simp (disch := omega) only [if_pos, if_neg, true_iff, false_iff]; omega
+  by_cases h9 : N - 1 = a ∧ 2 * N - 1 = b
+  · simp (disch := omega) only [if_pos, if_neg, true_iff, false_iff]; omega
+  simp (disch := omega) only [if_pos, if_neg, true_iff, false_iff]; omega
+
+/-- `merge_scatter3d_preserves_polylines` without its two string hypotheses (`mode.isEmpty = false`, `containsLine mode = true`:
+`"lines".isEmpty = false` is decidable, `containsLine "lines" = true` is not provable by `decide` / `rfl` / `simp` — `String.splitOn`
+does not reduce — so the old theorem has no instance with a concrete mode in Lean): the function the two Booleans are passed to,
+at (mode non-empty, "line" in mode). -/
+theorem merge_scatter3d_core_preserves_polylines {α : Type} (t0 t1 : ScatterTrace α) (r : List (ScatterTrace α)) :
+    ∃ m, mergeScatter3dCore false true (t0 :: t1 :: r) = .ok m ∧
+      splitNone m.x = [] :: (t0 :: t1 :: r).flatMap (fun b => splitNone b.x) ∧
+      splitNone m.y = [] :: (t0 :: t1 :: r).flatMap (fun b => splitNone b.y) ∧
+      splitNone m.z = [] :: (t0 :: t1 :: r).flatMap (fun b => splitNone b.z) ∧
+      m.mode = t0.mode ∧ m.rest = t0.rest := by
+  have hx := splitNone_gapped ((t0 :: t1 :: r).map (·.x))
+  have hy := splitNone_gapped ((t0 :: t1 :: r).map (·.y))
+  have hz := splitNone_gapped ((t0 :: t1 :: r).map (·.z))
+  simp only [List.flatMap_map] at hx hy hz
+  have hmerge : mergeScatter3dCore false true (t0 :: t1 :: r) = .ok
+      { x := (t0 :: t1 :: r).flatMap (fun b => none :: b.x), y := (t0 :: t1 :: r).flatMap (fun b => none :: b.y),
+        z := (t0 :: t1 :: r).flatMap (fun b => none :: b.z), mode := t0.mode, rest := t0.rest } := by
+    simp [mergeScatter3dCore]
+  exact ⟨_, hmerge, hx, hy, hz, rfl, rfl⟩
+
+example : ∃ m, mergeScatter3dCore false true [({ x := [some 1, some 2], y := [some 0, some 0], z := [some 0, some 0], mode := some "lines" } : ScatterTrace Int),
+      { x := [some 7], y := [some 8], z := [some 9], mode := none }] = .ok m ∧ splitNone m.x = [[], [1, 2], [7]] := by
+  obtain ⟨m, h, hx, _⟩ := merge_scatter3d_core_preserves_polylines
+    ({ x := [some 1, some 2], y := [some 0, some 0], z := [some 0, some 0], mode := some "lines" } : ScatterTrace Int)
+    { x := [some 7], y := [some 8], z := [some 9], mode := none } []
+  exact ⟨m, h, by rw [hx]; decide⟩
+
+
+/-- the seam theorem applied: at N = 50 (vert = 50, full turn) the rung (0, 50) is open, the arc edge (0, 1) is not -/
+example : ((0, 50) : Edge) ∈ openEdges (segTriangles 50 true) ∧ ((0, 1) : Edge) ∉ openEdges (segTriangles 50 true) :=
+  ⟨(cylinder_segment_full_turn_seam_open_N 50 (by norm_num) _).2 (by simp),
+   fun h => by have := (cylinder_segment_full_turn_seam_open_N 50 (by norm_num) _).1 h; simp at this⟩
 end MagpyVerif.C19
